@@ -60,7 +60,7 @@ var sharedErrors = []*common.ErrorResponse{
 	{},
 }
 
-var kinds = []string{"get", "get-sub", "create", "update", "partial_update", "delete", "batch_get", "batch_delete", "finder", "action", "entity-action", "get_all", "get-long", "simple-get", "batch_update"}
+var kinds = []string{"get", "get-sub", "create", "update", "partial_update", "delete", "batch_get", "batch_delete", "finder", "action", "entity-action", "get_all", "get-long", "simple-get", "batch_update", "batch_update-long"}
 var outcomes = []string{"ok", "ok", "status", "error-response", "shared-error", "plain-error", "panic"}
 
 // Cases builds the request list for a seed.
@@ -105,7 +105,7 @@ func NewWorld(reqs []Req, mounting string) (*World, error) {
 		case "panic":
 			o.DoPanic, o.Panic = true, "panic "+r.Token
 		}
-		if r.Kind == "batch_get" || r.Kind == "batch_delete" || r.Kind == "batch_update" {
+		if r.Kind == "batch_get" || r.Kind == "batch_delete" || r.Kind == "batch_update" || r.Kind == "batch_update-long" {
 			o.BatchResults = map[string][]byte{r.Token + "-a": []byte(fmt.Sprintf(`{"k":%q}`, r.Token+"-a"))}
 			o.BatchStatuses = map[string]int{r.Token + "-b": 200 + r.N%50}
 			o.BatchErrors = map[string]*common.ErrorResponse{r.Token + "-c": {Status: p32(404), Message: ps("missing " + r.Token)}}
@@ -227,6 +227,11 @@ func (w *World) do(r Req) (result string, wire *kit.Wire, err error) {
 		return showBatch(b), wr, e
 	case "batch_update":
 		b, wr, e := t.BatchUpdate("things", "/things", map[string][]byte{tk + "-a": body, tk + "-b": body, tk + "-c": body})
+		return showBatch(b), wr, e
+	case "batch_update-long":
+		// long keys push the ids parameter over the tunnelling threshold: a tunnelled request that also has a body
+		pad := strings.Repeat("p", 150)
+		b, wr, e := t.BatchUpdate("things", "/things", map[string][]byte{tk + "-a" + pad: body, tk + "-b" + pad: body, tk + "-c": body})
 		return showBatch(b), wr, e
 	case "action":
 		v, wr, e := t.Action("things", "/things", "sum", body)
